@@ -85,7 +85,10 @@ def config_view(solver):
 def run_spec(spec):
     from mc import drive, workers
 
-    workers.ensure(spec.get("devices", 1))
+    # restore() must work in a process that has done nothing but import the library: 64-bit mode is
+    # NOT pre-enabled for that route (for hand-built problems the x64-first order is used; the
+    # other order is C20's known finding)
+    workers.ensure(spec.get("devices", 1), x64=spec.get("route") != "restore" or spec.get("x64_first", False))
     cls = drive.solver_cls(spec["solver"])
     kw = dict(spec.get("kw", {}))
     kw.setdefault("verbose", 0)
